@@ -1,5 +1,7 @@
 --------------------------- MODULE MCStateHistory ---------------------------
 (* Model-checking instance of StateHistory: nothing a .cfg cannot express is needed for the
-   constants (sets of strings); this module only fixes the names used by the configurations. *)
+   constants (sets of strings); this module only fixes the names used by the configurations.
+   (The expected-violation configurations StateHistory_x_keep_<encoding>_<kind>.cfg substitute
+   Keep_<encoding>_<kind> of StateHistory.tla for the mechanism switch RevertKeeps.) *)
 EXTENDS StateHistory
 =============================================================================
